@@ -1,4 +1,4 @@
-from . import dchecks, rchecks, ochecks, gchecks
+from . import dchecks, rchecks, ochecks, gchecks, echecks
 
 CHECKS = {}
 REPLAYERS = {}
@@ -6,3 +6,5 @@ CHECKS.update(dchecks.CHECKS)
 CHECKS.update(rchecks.CHECKS)
 CHECKS.update(ochecks.CHECKS)
 CHECKS.update(gchecks.CHECKS)
+CHECKS.update(echecks.CHECKS)
+REPLAYERS["E"] = echecks.replay_env
